@@ -136,6 +136,12 @@ def main(argv=None) -> int:
         traceback.print_exc()
         return 3
     units: List[str] = list(P["units"])
+    # which (claimed) properties run which unit
+    unit_props: Dict[str, set] = {}
+    for pid, pl in plan.items():
+        if pl.get("claimed", True):
+            for u in pl["units"]:
+                unit_props.setdefault(u, set()).add(pid)
     missing = [u for u in units if u not in REG.fns]
     if missing:
         print(f"CHECKER-ERROR: units without contract: {missing}")
@@ -179,7 +185,9 @@ def main(argv=None) -> int:
                 if k.endswith(".continues") and not v:
                     continue_errors.append(f"vacuity: no path of {r.unit} continues after the call {k.split('.call.', 1)[1][:-10]} (the callee's contract contradicts the state at every call)")
         for ob in r.obligations:
-            if ob.props and prop not in ob.props:
+            if ob.props and prop not in ob.props and (set(ob.props) & unit_props.get(r.unit, set())):
+                # counted by another property whose plan also runs this unit; an obligation that
+                # no such property claims is counted here (no obligation of a unit goes unjudged)
                 continue
             n_instances += 1
             d = named.setdefault(ob.name, {"clause": ob.clause, "instances": 0, "status": "unsat", "ms": 0.0, "unit": r.unit, "where": ob.where, "props": list(ob.props), "cvc5": 0})
